@@ -130,7 +130,7 @@ def run(chk: core.Check, tier: str, seed: int) -> None:
     # one compiled index / slice query shared by threads on arrays of DIFFERENT lengths, under the line-granularity scheduler of
     # harness/sched.py (every single pre-emption point): whatever a selector remembers about the last array it saw is wrong for the next
     from .c16 import preempt_records  # noqa: PLC0415
-    precs, n_sched, stuck = preempt_records(jp, rng, 60 if tier == "quick" else 100000, only_shared_prefix="$[")
+    precs, n_sched, stuck = preempt_records(jp, rng, 60 if tier == "quick" else 1500, only_shared_prefix="$[")
     for r in precs:
         r.pop("threads", None)
     recs += precs
